@@ -307,6 +307,17 @@ func (c *simConn) deliver(in simIn) {
 	}
 }
 
+// offer is deliver for checks that flood the socket: it reports a full buffer (a reader that has stopped
+// reading) instead of panicking.
+func (c *simConn) offer(in simIn) bool {
+	select {
+	case c.inC <- in:
+		return true
+	default:
+		return false
+	}
+}
+
 // snapshot helpers ------------------------------------------------------------
 
 func (w *simWorld) writesCopy() []simWrite {
